@@ -15,6 +15,7 @@ import (
 	"github.com/VKCOM/tl/pkg/rpc"
 
 	"github.com/VKCOM/statshouse/internal/data_model/gen2/tlmetadata"
+	"github.com/VKCOM/statshouse/internal/verifhook"
 )
 
 type w4MockConn struct {
@@ -49,15 +50,15 @@ func (c *w4MockConn) SendResponse(hctx *rpc.HandlerContext, err error) {
 	f.asyncErr = err
 	f.asyncReady = true
 }
-func (c *w4MockConn) SendEmptyResponse(lh rpc.LongpollHandle)                        {}
-func (c *w4MockConn) AccountResponseMem(hctx *rpc.HandlerContext, est int) error     { return nil }
-func (c *w4MockConn) ListenAddr() net.Addr                                            { return &net.TCPAddr{} }
-func (c *w4MockConn) LocalAddr() net.Addr                                             { return &net.TCPAddr{} }
-func (c *w4MockConn) RemoteAddr() net.Addr                                            { return &net.TCPAddr{} }
-func (c *w4MockConn) KeyID() [4]byte                                                  { return [4]byte{} }
-func (c *w4MockConn) ProtocolVersion() uint32                                         { return 0 }
-func (c *w4MockConn) ProtocolTransportID() byte                                       { return 0 }
-func (c *w4MockConn) ConnectionID() uintptr                                           { return 1 }
+func (c *w4MockConn) SendEmptyResponse(lh rpc.LongpollHandle)                    {}
+func (c *w4MockConn) AccountResponseMem(hctx *rpc.HandlerContext, est int) error { return nil }
+func (c *w4MockConn) ListenAddr() net.Addr                                       { return &net.TCPAddr{} }
+func (c *w4MockConn) LocalAddr() net.Addr                                        { return &net.TCPAddr{} }
+func (c *w4MockConn) RemoteAddr() net.Addr                                       { return &net.TCPAddr{} }
+func (c *w4MockConn) KeyID() [4]byte                                             { return [4]byte{} }
+func (c *w4MockConn) ProtocolVersion() uint32                                    { return 0 }
+func (c *w4MockConn) ProtocolTransportID() byte                                  { return 0 }
+func (c *w4MockConn) ConnectionID() uintptr                                      { return 1 }
 
 type w4Follower struct {
 	id   int
@@ -75,6 +76,11 @@ type w4Follower struct {
 	syncErr error
 	resp    []byte
 	ch      chan struct{}
+	// hold: this call parks at the hook metadata.getjournal.after_recheck (after the handler's second
+	// read, before it registers the long poll) until the scheduler releases it
+	hold bool
+	held bool
+	gate chan struct{}
 }
 
 func (w *w4World) initFollowers(n int) {
@@ -92,6 +98,37 @@ func (w *w4World) initFollowers(n int) {
 		w.followers = append(w.followers, f)
 		go w.followerLoop(f)
 	}
+	verifhook.SetOnPoint(func(name string) {
+		if name != "metadata.getjournal.after_recheck" {
+			return
+		}
+		f := w.calling
+		if f == nil || !f.hold {
+			return
+		}
+		f.hold, f.held = false, true
+		w.heldFollower = f
+		w.r.Probe("follower_held_between_recheck_and_registration")
+		<-f.gate // parked here: in the unchanged code with the handler's client-list mutex held
+		f.held = false
+	})
+}
+
+// releaseHeld lets a follower parked at the hook go on (it then answers or registers its long poll).
+func (w *w4World) releaseHeld() {
+	if f := w.heldFollower; f != nil {
+		w.heldFollower = nil
+		close(f.gate)
+	}
+}
+
+// clientListFree: nobody holds the handler's client-list mutex at this quiescent instant.
+func (w *w4World) clientListFree() bool {
+	if w.handler.getJournalClients.mx.TryLock() {
+		w.handler.getJournalClients.mx.Unlock()
+		return true
+	}
+	return false
 }
 
 func (w *w4World) followerLoop(f *w4Follower) {
@@ -110,7 +147,9 @@ func (w *w4World) followerLoop(f *w4Follower) {
 			hctx.ResetTo(w.conn, qid)
 			hctx.Request = f.args.WriteTL1(nil)
 			f.parked = false
+			w.calling = f
 			_, err := w.handler.RawGetJournal(context.Background(), hctx)
+			w.calling = nil
 			if _, isParked := w.conn.pending[qid]; isParked && err == nil {
 				f.parked = true
 				return
@@ -123,6 +162,8 @@ func (w *w4World) followerLoop(f *w4Follower) {
 
 // closeFollowers ends follower goroutines (parked long polls are simply forgotten).
 func (w *w4World) closeFollowers() {
+	w.releaseHeld()
+	verifhook.SetOnPoint(nil)
 	for _, f := range w.followers {
 		close(f.ch)
 	}
@@ -148,6 +189,7 @@ func (w *w4World) startFollow(f *w4Follower) {
 	c := w.c
 	f.args = tlmetadata.GetJournalnew{From: f.pos, Limit: int64(1 + c.Intn(20, "follow_limit"))}
 	f.busy, f.done, f.syncErr, f.resp = true, false, nil, nil
+	f.hold, f.gate = w.holdFollowers && c.Intn(3, "hold_after_recheck") == 1, make(chan struct{})
 	w.r.Sched("follow", fmt.Sprintf("follower%d", f.id))
 	w.r.Event(fmt.Sprintf("follower%d", f.id), "getJournal from=%d limit=%d", f.args.From, f.args.Limit)
 	f.ch <- struct{}{}
